@@ -378,7 +378,7 @@ func TestC42(t *testing.T) {
 	defer c.Finish()
 	c.Assume("bank balances are the ground truth for what ICS-20 moved; rate limits are administered through the module's msg server with the authority address; application stack as wired in testing/simapp")
 	for k, v := range map[string]int64{
-		"probes": 40, "probes_v1": 15, "probes_alias": 6, "probes_v2": 3, "send_charge_checks": 40, "recv_charge_checks": 25, "send_charged_to_bank_denom": 20, "recv_charged_to_bank_denom": 20,
+		"probes": 35, "probes_v1": 20, "probes_alias": 7, "probes_v2": 2, "send_charge_checks": 35, "recv_charge_checks": 20, "send_charged_to_bank_denom": 25, "recv_charged_to_bank_denom": 18,
 		"zero_send_quota_checks": 30, "zero_send_quota_blocked": 15, "zero_recv_quota_checks": 20, "zero_recv_quota_blocked": 20, "refund_charge_checks": 15, "origin_refused_denomination": 3,
 	} {
 		c.Floor(k, v)
